@@ -36,7 +36,15 @@ pub fn corpus(seed: u64, thorough: bool) -> Vec<Case> {
         cfg.max_part = rng.below(7) as u32;
         cfg.max_lpc = *rng.pick(&[None, Some(4), Some(8), Some(12)]);
         let frames = cfg.block_size as usize * rng.usize(1, 3) + rng.usize(0, 300);
-        let signal = *rng.pick(&flacref::pcm::ALL_SIGNALS);
+        let mut signal = *rng.pick(&flacref::pcm::ALL_SIGNALS);
+        if i % 5 == 4 {
+            // very quiet, strictly periodic / tonal material at a high bit depth: the FIXED candidate is
+            // tiny and the LPC candidate smaller still, so which of the two parallel candidates
+            // finishes first must not matter
+            signal = *rng.pick(&[flacref::pcm::Signal::QuietPeriodic, flacref::pcm::Signal::QuietTonal]);
+            cfg.bps = *rng.pick(&[16u32, 20, 24, 32]);
+            cfg.max_lpc = *rng.pick(&[Some(8), Some(12), Some(32)]);
+        }
         v.push(Case { cfg, front: *rng.pick(&FRONTS), recipe: PcmRecipe { signal, seed: rng.next(), frames } });
     }
     v
